@@ -253,3 +253,66 @@ Definition refuse_some (who : nat -> bool) (pre body next : ctrace) : nat -> ctr
    single-process one; flag3: the root's result of the follow-up operation is the single-process one *)
 Definition c06_refusal_case (worlds : list cworld) (all_returned root_same follow_same : bool) : nat :=
   code [ implb all_returned (forallb aligned worlds); all_returned; root_same; follow_same ].
+
+(* ---- node layouts (several hosts) ----
+   WorkerManager (catalog/catalog.py) builds the write pipeline from the ranks that report the
+   processor name of the reader (world rank 0): `ranks_on_same_node(0, get_size(max_workers))` =
+   the first min(max_workers or size, size) of them in rank order; one of them other than the
+   reader becomes the writer, the others (reader included) are the processing ranks = the members
+   of the worker communicator.  A processor name is a number, [hosts] lists the name of every
+   world rank.  [nproc] = number of processing ranks; None = the request is refused (fewer than
+   two allowed workers: ValueError; no second rank on the reader's node: KeyError of set.pop).
+   On ONE node nproc = min(max_workers, size) - 1; on several nodes it can be anything from 1 up
+   to that number - the two quantities are independent inputs of the scatter. *)
+Fixpoint idx_where (p : nat -> bool) (l : list nat) (i : nat) : list nat :=
+  match l with
+  | [] => []
+  | h :: t => if p h then i :: idx_where p t (S i) else idx_where p t (S i)
+  end.
+Definition same_node (hosts : list nat) : list nat :=
+  match hosts with [] => [] | h0 :: _ => idx_where (Nat.eqb h0) hosts 0 end.
+Definition eff_workers (size : nat) (mw : option nat) : nat :=
+  match mw with None => size | Some 0 => size | Some m => Nat.min m size end.
+Definition active_ranks (hosts : list nat) (mw : option nat) : list nat :=
+  firstn (eff_workers (length hosts) mw) (same_node hosts).
+Definition nproc (hosts : list nat) (mw : option nat) : option nat :=
+  if eff_workers (length hosts) mw <? 2 then None
+  else match active_ranks hosts mw with _ :: _ :: rest => Some (S (length rest)) | _ => None end.
+
+(* numpy.array_split: k pieces, the first (n mod k) of them one record longer *)
+Definition split_sizes (n k : nat) : list nat := repeat (S (n / k)) (n mod k) ++ repeat (n / k) (k - n mod k).
+
+Section Scatter.
+  Context {A : Type}.
+  Fixpoint take_pieces (sizes : list nat) (l : list A) : list (list A) :=
+    match sizes with
+    | [] => []
+    | n :: ns => firstn n l :: take_pieces ns (skipn n l)
+    end.
+  Definition array_split (l : list A) (k : nat) : list (list A) := take_pieces (split_sizes (length l) k) l.
+  (* scatter_data_chunk: one piece per processing rank, the reader keeps the first *)
+  Definition scatter (np : nat) (l : list A) : chunk A :=
+    match array_split l np with own :: rest => (own, rest) | [] => ([], []) end.
+  (* the class of defects this section is about: the chunk is cut into [nsplit] pieces (a number
+     derived from the worker limit) while one piece is handed to each of the [np] processing ranks *)
+  Definition scatter_var (nsplit np : nat) (l : list A) : chunk A :=
+    match array_split l nsplit with own :: rest => (own, firstn (np - 1) rest) | [] => ([], []) end.
+End Scatter.
+
+(* one creation run of the implementation on a world with processor names [hosts] and worker
+   limit [mw].  refused: every rank raised; writer: the rank the dictionaries were sent to;
+   members: writer and processing ranks, ascending; procs: the processing ranks, ascending;
+   pieces: per chunk the number of records each processing rank turned into a dictionary;
+   input / stored: records of the single-process catalog / of the root's catalog.
+   flag0: the model agrees (who takes part, how a chunk is cut); flag1: the pieces of all chunks
+   add up to the input (nothing lost between reader and workers); flag2: stored = input *)
+Definition c06_layout_case (hosts : list nat) (mw : option nat) (refused : bool) (writer : nat)
+    (members procs : list nat) (pieces : list (list nat)) (input stored : nat) : nat :=
+  code [ if refused then match nproc hosts mw with None => true | Some _ => false end
+         else match nproc hosts mw with Some np => np =? length procs | None => false end
+              && nlist_eqb members (active_ranks hosts mw)
+              && negb (writer =? 0) && existsb (Nat.eqb writer) members
+              && nlist_eqb procs (filter (fun r => negb (r =? writer)) members)
+              && forallb (fun pcs => nlist_eqb pcs (split_sizes (list_sum pcs) (length procs))) pieces;
+         refused || (list_sum (map (@list_sum) pieces) =? input);
+         refused || (stored =? input) ].
